@@ -29,6 +29,8 @@ struct Base {
 	struct Crc { size_t begin, end, crc_at; };   // .xz: CRC32-protected structure [begin,end) with its CRC32 stored at crc_at
 	std::vector<Crc> crcs;
 	bool has_check = true; bool lzma_known = false, lzma_marker = true; bool size_fields = false;
+	struct Blk { size_t hdr_off, total, plain_off, plain_len; unsigned check; };   // .xz: every Block (header .. Check) and its plaintext range
+	std::vector<Blk> blks;
 	std::string desc;
 };
 
@@ -76,6 +78,7 @@ static Base make_base(Case &c) {
 		if (c.rare(40)) B.bytes.insert(B.bytes.end(), 4 * (1 + c.u(2)), 0); // trailing Stream Padding
 		ref::XzOpts xo; xo.concatenated = true; ref::XzResult X = ref::xz_decode(B.bytes.data(), B.bytes.size(), xo);
 		if (!X.ok() || X.out != B.plain) harness_bug("generated base file rejected by the reference parser: %s", X.rule.c_str());
+		{ size_t po = 0; for (auto &S : X.streams) for (auto &b : S.blocks) { B.blks.push_back({b.hdr_off, b.hdr_size + b.data_size + b.pad_size + b.check_size, po, (size_t)b.unc_size, S.check_id}); po += (size_t)b.unc_size; } }
 		for (auto &S : X.streams) { for (auto &b : S.blocks) { B.payload.push_back({b.data_off, b.data_off + b.data_size}); B.crcs.push_back({b.hdr_off, b.hdr_off + b.hdr_size - 4, b.hdr_off + b.hdr_size - 4}); }
 			B.crcs.push_back({S.off + 6, S.off + 8, S.off + 8});                                  // Stream Flags of the header
 			B.crcs.push_back({S.index_off, S.index_off + S.index_size - 4, S.index_off + S.index_size - 4}); // Index
@@ -147,8 +150,40 @@ static const char *field_of(const Base &B, size_t off) {
 	return "non-payload";
 }
 
+// The Block API on the damaged Block(s): lzma_block_header_decode() + lzma_block_decoder(), once with a freshly zeroed lzma_block and
+// once with one that the application has used before (ignore_check still true, sizes and raw_check stale - exactly the members that
+// block.h says the header decoder (re)writes; reserved members zero).  A single Block cannot be judged against the original data
+// (without the Index a damaged Block can be a valid *other* Block: a flipped control byte can turn it into an empty Block whose
+// CRC32 happens to follow), so the oracle is metamorphic: both runs must agree in status and bytes - if the stale ignore_check
+// survived, the Check is skipped and damage is reported as success.
+static drv::Result block_api_run(const std::vector<uint8_t> &dam, size_t hdr_off, unsigned check, bool reused, bool &hdr_ok) {
+	drv::Result R; R.ret = LZMA_DATA_ERROR; hdr_ok = false;
+	lzma_block blk; memset(&blk, 0, sizeof blk); lzma_filter fl[LZMA_FILTERS_MAX + 1];
+	blk.version = 1; blk.check = (lzma_check)check; blk.filters = fl; blk.header_size = lzma_block_header_size_decode(dam[hdr_off]);
+	if (reused) { blk.ignore_check = true; blk.compressed_size = 0x1234567; blk.uncompressed_size = 0x7654321; memset(blk.raw_check, 0x5A, sizeof blk.raw_check); }
+	if (hdr_off + blk.header_size > dam.size()) return R;
+	if (lzma_block_header_decode(&blk, AL(), dam.data() + hdr_off) != LZMA_OK) return R;
+	hdr_ok = true;
+	lzma_stream s = LZMA_STREAM_INIT; s.allocator = AL();
+	if (lzma_block_decoder(&s, &blk) == LZMA_OK) { drv::Opts o; o.out_cap = 1u << 20; R = drv::run(&s, dam.data() + hdr_off + blk.header_size, dam.size() - hdr_off - blk.header_size, drv::Schedule(), o); } else R.ret = LZMA_OPTIONS_ERROR;
+	lzma_end(&s); lzma_filters_free(fl, AL());
+	return R;
+}
+static void check_block_api(Judge &J, const std::vector<uint8_t> &dam, const char *what, size_t a, size_t b) {
+	const Base &B = J.B; if (B.kind != K_XZ || !B.has_check || dam.size() != B.bytes.size()) return;
+	for (auto &k : B.blks) {
+		if (b <= k.hdr_off || a >= k.hdr_off + k.total || dam[k.hdr_off] == 0) continue;
+		bool ok1, ok2; drv::Result F = block_api_run(dam, k.hdr_off, k.check, false, ok1), U = block_api_run(dam, k.hdr_off, k.check, true, ok2); J.evals += 2;
+		if (ok1 != ok2 || F.ret != U.ret || F.out != U.out)
+			violation("C05:block-api-stale-member-changes-verdict", "%s %s@%zu..%zu: Block API with a fresh lzma_block: %s, %zu bytes; with a reused one (ignore_check/sizes/raw_check stale before lzma_block_header_decode): %s, %zu bytes",
+				B.desc.c_str(), what, a, b, drv::retname(F.ret), F.out.size(), drv::retname(U.ret), U.out.size());
+		if (U.ret == LZMA_STREAM_END) { ++J.success_same; if (U.out.size() != k.plain_len || (k.plain_len && memcmp(U.out.data(), B.plain.data() + k.plain_off, k.plain_len))) count("block_api_damaged_block_is_another_valid_block"); } else ++J.errors;
+	}
+}
+
 static void check_one(Judge &J, const std::vector<uint8_t> &dam, const char *what, size_t a, size_t b, bool nonpayload_only, bool is_trunc, bool mt_too = true, int only_dec = -1) {
 	const Base &B = J.B;
+	if (only_dec < 0 && !is_trunc) check_block_api(J, dam, what, a, b);
 	for (int dec = 0; dec < D_N; ++dec) {
 		if (only_dec >= 0 && dec != only_dec) continue;
 		if ((dec == D_MT_CONCAT || dec == D_MT_FAILFAST || dec == D_ST_BYTEWISE) && !mt_too) continue;   // the costlier settings run on a subset
